@@ -10,7 +10,7 @@ def gen(rng, n, tier):
 
 register(PropSpec(
     "C04",
-    engines=[EngineSpec("exec", gen, mon_exec.mon_c04, mon_exec.tags_c04, quick_n=250, thorough_n=6000)],
+    engines=[EngineSpec("exec", gen, mon_exec.mon_c04, mon_exec.tags_c04, quick_n=250, thorough_n=6000, mask=mon_exec.mask_unmodelled)],
     facts=["txFsm"],
     rule="exec engine: per transaction id a generated life (request with timeout 0/1/2/3/4/10/huge/negative, success/failure/rollback receipts "
          "before/at/after the deadline, repeated and out-of-protocol receipts, unrelated and empty blocks); GetStatus observed after every block; "
